@@ -196,8 +196,51 @@ func boolFieldTest(cond ssa.Value) (field *types.Var, base ssa.Value, ok bool) {
 func guardedByFieldFlag(in ssa.Instruction, field *types.Var, base ssa.Value, want bool) bool {
 	return model.GuardedBy(in, func(c ssa.Value, pol bool) bool {
 		f, b, ok := boolFieldTest(c)
-		return ok && f == field && sameValue(b, base) && pol == want
+		if ok && f == field && sameValue(b, base) && pol == want {
+			return true
+		}
+		// the test sits in a predicate helper of lal, pred(base): on its false edge the field is
+		// false when pred returns true on every path on which the field is true
+		if call, isC := c.(*ssa.Call); isC && !want && !pol && len(call.Call.Args) == 1 && sameValue(call.Call.Args[0], base) {
+			if ce := call.Call.StaticCallee(); ce != nil && model.IsLal(ce) && len(ce.Blocks) > 0 {
+				return predicateTrueWhenField(ce, field)
+			}
+		}
+		return false
 	})
+}
+
+// predicateTrueWhenField: the one-argument boolean function returns true on every path when the
+// given boolean field (of its argument) is true - path enumeration with the field's loads fixed.
+func predicateTrueWhenField(fn *ssa.Function, field *types.Var) bool {
+	used := false
+	ev := &cEval{fn: fn, maxVisits: 3, maxPaths: 256}
+	ev.seed = func(v ssa.Value) (int64, bool) {
+		if f := model.LoadedField(v); f != nil && f == field {
+			used = true
+			return 1, true
+		}
+		return 0, false
+	}
+	ev.run()
+	if ev.undecided != "" {
+		return false
+	}
+	n := 0
+	for _, pa := range ev.paths {
+		if pa.ret == nil {
+			continue
+		}
+		rv := model.ReturnValues(pa.ret)
+		if len(rv) != 1 {
+			return false
+		}
+		if v, known := ev.val(pa.env, rv[0]); !known || v != 1 {
+			return false
+		}
+		n++
+	}
+	return n > 0 && used
 }
 
 // sameValue: identical SSA value, or both loads of the same field path from the same root
